@@ -216,14 +216,22 @@ def _api_type(m, res, ts, tc):
         raise AnchorError("no root_%s" % ts)
     body = [stmt_expr(s) for s in fn["b"]["s"]]
     ok = False
+    pname = (_params(fn) or [("el", "")])[0][0]
     if len(body) == 1 and kind(body[0]) == "if" and body[0]["e"] is not None:
         c = body[0]["c"]
         t = body[0]["t"]["s"]
         el = body[0]["e"]["s"] if kind(body[0]["e"]) == "block" else []
-        if kind(c) == "bin" and c["op"] == ">=" and expr_str(c["rhs"]) == "self.%s_equalities.len()" % ts and len(t) == 1 and len(el) == 1 \
-                and expr_str(stmt_expr(t[0])) == "el" and expr_str(stmt_expr(el[0])) == "self.%s_equalities.root_const(el)" % ts \
-                and expr_str(c["lhs"]) in ("el.0 as usize",):
-            ok = True
+        if kind(c) == "bin" and len(t) == 1 and len(el) == 1:
+            lens = "self.%s_equalities.len()" % ts
+            idx = "%s.0 as usize" % pname
+            lhs, rhs, op = expr_str(c["lhs"]), expr_str(c["rhs"]), c["op"]
+            te, ee = expr_str(stmt_expr(t[0])), expr_str(stmt_expr(el[0]))
+            root = "self.%s_equalities.root_const(%s)" % (ts, pname)
+            # out of bounds: idx >= len  /  len <= idx ; in bounds: idx < len / len > idx
+            oob = (lhs == idx and rhs == lens and op == ">=") or (lhs == lens and rhs == idx and op == "<=")
+            inb = (lhs == idx and rhs == lens and op == "<") or (lhs == lens and rhs == idx and op == ">")
+            if (oob and te == pname and ee == root) or (inb and te == root and ee == pname):
+                ok = True
     if ok:
         res.ok()
     else:
@@ -331,20 +339,26 @@ def _api_type(m, res, ts, tc):
     site = "new_%s_internal" % ts
     if fn is None:
         raise AnchorError("no %s" % site)
-    txt = [expr_str(s.get("e")) if kind(s) in ("let", "expr") and s.get("e") else "" for s in fn["b"]["s"]]
-    lets = {s["p"]["n"]: expr_str(s["e"]) for s in fn["b"]["s"] if kind(s) == "let" and kind(s["p"]) == "pid"}
-    lenvar = [k for k, v in lets.items() if v == "self.%s_equalities.len()" % ts]
-    okn = False
-    if lenvar:
-        lv = lenvar[0]
-        elvar = [k for k, v in lets.items() if v == "u32::try_from(%s).unwrap()" % lv]
-        grow = "self.%s_equalities.increase_size_to((%s + 1))" % (ts, lv) in txt
-        if elvar and grow:
-            ev = elvar[0]
-            ins = "self.%s.insert([%s])" % (m.typeset(ts, "new").name, ev) in txt
-            wpush = "self.%s_weights.push(0)" % ts in txt
-            ret = txt and txt[-1] == "%s::from(%s)" % (tc, ev)
-            okn = ins and wpush and ret
+    stmts_ = fn["b"]["s"]
+    lets = {s_["p"]["n"]: s_["e"] for s_ in stmts_ if kind(s_) == "let" and kind(s_["p"]) == "pid" and s_["e"] is not None}
+    lenvars = {k for k, e_ in lets.items() if expr_str(e_) == "self.%s_equalities.len()" % ts}
+    # the new id: a local computed from the old length only (u32::try_from(len).unwrap(), `len as u32`, ..)
+    elvars = {k for k, e_ in lets.items() if k not in lenvars and any(is_path(x, lv) for lv in lenvars for x in walk(e_))
+              and not any(self_field(x) for x in walk(e_))}
+    grow = False
+    for x in walk(fn["b"]):
+        if mcall(x, "increase_size_to") and self_field(x["r"]) == ts + "_equalities" and len(x["a"]) == 1:
+            a_ = x["a"][0]
+            if kind(a_) == "bin" and a_["op"] == "+":
+                sides = [expr_str(a_["lhs"]), expr_str(a_["rhs"])]
+                if "1" in sides and any(sd in lenvars for sd in sides):
+                    grow = True
+    ins = any(mcall(x, "insert") and self_field(x["r"]) == m.typeset(ts, "new").name and array_names(x["a"][0]) is not None
+              and len(array_names(x["a"][0])) == 1 and array_names(x["a"][0])[0] in elvars for x in walk(fn["b"]) if mcall(x, "insert") and x["a"])
+    wpush = any(mcall(x, "push") and self_field(x["r"]) == ts + "_weights" for x in walk(fn["b"]))
+    last = stmt_expr(stmts_[-1]) if stmts_ else None
+    ret = last is not None and any(is_path(x, ev) for ev in elvars for x in walk(last)) and (kind(last) in ("call", "mcall", "path", "struct"))
+    okn = bool(lenvars) and bool(elvars) and grow and ins and wpush and ret
     if okn:
         res.ok()
     else:
